@@ -105,7 +105,7 @@ def rule_bp(ctx, M, cname, futname, rule):
         tests = sorted({a for a, b_ in stay_e})
         okw = bool(aw)
         if okw:
-            r = bi.body.reach([t for _, t in stay_e], avoid_blocks=[a.block for a in aw], stop_blocks=tests)
+            r = bi.reach_from_edges(stay_e, avoid_blocks=[a.block for a in aw], stop_blocks=tests)
             okw = not any(x in r for x in tests) and not any(x in r for x in bi.return_blocks)
         if not okw:
             probs.append("the back-pressure loop does not await group.next() before re-testing the limit")
@@ -181,6 +181,15 @@ def rule_bp(ctx, M, cname, futname, rule):
                             vals.add("other:" + short(d))
                     oklim = vals == {"get", "max"}
                     detail = ",".join(sorted(vals))
+                elif lim is not None and lim[0] == "call":
+                    # the same mapping spelled with the Option combinators
+                    is_max = lambda x: x[0] in ("const", "constexpr") and (x[1] == 18446744073709551615 or "MAX" in str(x[1]))
+                    is_get = lambda x: x == ("fn", ("NonZero", "get"))
+                    if lim[1] == ("Option", "map_or") and len(lim[2]) == 3:
+                        oklim = lim[2][0] == ("param", 1) and is_max(lim[2][1]) and is_get(lim[2][2])
+                    elif lim[1] == ("Option", "unwrap_or") and len(lim[2]) == 2 and lim[2][0][0] == "call" and lim[2][0][1] == ("Option", "map"):
+                        oklim = lim[2][0][2][0] == ("param", 1) and is_get(lim[2][0][2][1]) and is_max(lim[2][1])
+                    detail = short(lim)
                 okc = okcount and oklim
     ctx.check(okc, rule, nb.def_, "constructor: count = 0; limit = Some(n) => n.get(), None => usize::MAX (%s)" % detail, site=nb.span)
 
